@@ -37,3 +37,10 @@ package httpp
 //@   ensures [bearer-user-pass] forall(k, 0, len(hs()), bearer(k) && forall(j, 0, k, !bearer(j)) && splitCount(rest(k), ":") == 2 ==> result.User == splitPart(rest(k), ":", 0) && result.Pass == splitPart(rest(k), ":", 1) && result.Token == "")
 //@   ensures [bearer-token] forall(k, 0, len(hs()), bearer(k) && forall(j, 0, k, !bearer(j)) && splitCount(rest(k), ":") != 2 ==> result.Token == rest(k) && result.User == "" && result.Pass == "")
 //@   ensures [basic-otherwise] forall(k, 0, len(hs()), !bearer(k)) ==> result.User == basicUser(h) && result.Pass == basicPass(h) && result.Token == ""
+
+// C07: in a request dump every value of a header whose name is in the redaction list is written as the placeholder.
+
+//@ func dumpRequest
+//@   property C07
+//@   safety -all
+//@   assert-call fmt.Fprintf: format == "%s: %s\r\n" ==> len(a) == 2 && (has(requestHeadersToRedact, unbox(a[0], string)) ==> unbox(a[1], string) == "<redacted>")
